@@ -606,3 +606,7 @@ func encCensus(c map[string]int) string {
 	}
 	return strings.Join(parts, ",")
 }
+
+// staleMsg: a receive target that still holds the content of an earlier use - RecvMsg / Invoke
+// must replace it entirely, also with an empty message
+func staleMsg() *Msg { return &Msg{Value: []byte("stale content of an earlier receive")} }
